@@ -170,6 +170,13 @@ func runC17(c *core.Ctx) {
 		c.Check(ok, "from-term", name, fn.Pos(), "f(a, b)", "%s returns %s, expected f(a, b) with f the receiver", x[2], short(p.Results[0]))
 	}
 
+	monoidRules(c)
+
+}
+
+// monoidRules: what monoid.From / FromOp build and what the built value's Empty / Combine are (shared with C10,
+// whose accumulators all start from Empty()).
+func monoidRules(c *core.Ctx) {
 	// ---- monoid.From / FromOp
 	// the concrete monoid type is what From builds; its field roles come from the field types (the element of the
 	// type parameter's type, the embedded interface that has Combine), never from unexported names
